@@ -64,7 +64,9 @@ Definition out_label (c : cls) : string :=
 Inductive pyfun :=
 | PGetattr | PGetitem | PLt | PLe | PEq | PNe | PGt | PGe | PTruth | PLen | PContains
 | PAdd | PSub | PMul | PMatmul | PTruediv | PFloordiv | PMod | PPow | PAnd | PXor | POr
-| PNeg | PPos | PAbs | PInvert | PInt | PFloat | PRound | PSliceCtor.
+| PNeg | PPos | PAbs | PInvert | PInt | PFloat | PRound | PSliceCtor
+| PChildAccess.   (* what {}[key] followed by difflib.get_close_matches(key, []) raises: a composite's
+                     child lookup by a key that names no child *)
 
 Definition pyname (f : pyfun) : string :=
   match f with
@@ -74,7 +76,7 @@ Definition pyname (f : pyfun) : string :=
   | PMatmul => "matmul" | PTruediv => "truediv" | PFloordiv => "floordiv" | PMod => "mod"
   | PPow => "pow" | PAnd => "and" | PXor => "xor" | POr => "or" | PNeg => "neg"
   | PPos => "pos" | PAbs => "abs" | PInvert => "invert" | PInt => "int" | PFloat => "float"
-  | PRound => "round" | PSliceCtor => "slice"
+  | PRound => "round" | PSliceCtor => "slice" | PChildAccess => "childaccess"
   end.
 
 (* in which order the node function hands (obj, other) to the Python operator *)
@@ -554,6 +556,7 @@ Section Model.
   Inductive ref :=
   | RChan (u j : nat)      (* node.outputs.<label> *)
   | RNode (u : nat)        (* the user node itself *)
+  | RComp (u : nat)        (* the user node itself, and it is a single-output COMPOSITE (macro) *)
   | RRaw (v : val)
   | RRes (k : nat).        (* the node returned by step k (or its .channel) *)
 
@@ -570,7 +573,7 @@ Section Model.
   Definition resolve (st : state) (results : list (option nat)) (r : ref) : resolved :=
     match r with
     | RChan u j => ResChan (CU u j)
-    | RNode u =>
+    | RNode u | RComp u =>
         match nth_error (s_users st) u with
         | Some ur => if Nat.eqb (List.length (u_chans ur)) 1 then ResChan (CU u 0) else ResAmbiguous
         | None => ResMissing
@@ -614,6 +617,10 @@ Section Model.
   Definition getattr_refused (name : string) : bool :=
     String.eqb name "to_hdf" || prefixb "_" name.
 
+  Definition is_comp (r : ref) : bool := match r with RComp _ => true | _ => false end.
+  Definition child_access (e : entry) : bool :=
+    match e with EGetattr | EGetitem => true | _ => false end.
+
   (* evaluate one written operation; returns the new state, the result, and the nominal
      labels that were hashed on the way (in order) *)
   Definition eval_step (st : state) (results : list (option nat)) (s : step)
@@ -626,6 +633,17 @@ Section Model.
         let rr := resolve st results recv in
         let ro := map (resolve st results) others in
         if is_missing rr || existsb is_missing ro then (st, ESkip, [])
+        else if is_comp recv && child_access e then
+          (* node.attr / node[item] on a composite never reach ExploitsSingleOutput: they are the
+             composite's child lookup (LexicalParent.__getattr__, Composite.__getitem__), which raises
+             for a key that names no child *)
+          match ro with
+          | [ResRaw v] => match pyop PChildAccess [v] with
+                          | inr x => (st, ERaise x, [])
+                          | inl _ => (st, ESkip, [])
+                          end
+          | _ => (st, ESkip, [])
+          end
         else match rr with
         | ResChan self =>
             if negb (Nat.eqb (List.length others) (entry_arity e)) then (st, ERaise "TypeError", [])
@@ -654,6 +672,7 @@ Section Model.
         let rr := resolve st results recv in
         let ro := map (resolve st results) [a; b; c] in
         if is_missing rr || existsb is_missing ro then (st, ESkip, [])
+        else if is_comp recv then (st, ERaise "TypeError", [])   (* child lookup by a slice object *)
         else match rr with
         | ResChan self =>
             if negb (existsb is_chanlike ro) then
@@ -849,6 +868,7 @@ Arguments OR {val} v.
 Arguments mkU {val} u_label u_chans u_ran.
 Arguments RChan {val} u j.
 Arguments RNode {val} u.
+Arguments RComp {val} u.
 Arguments RRaw {val} v.
 Arguments RRes {val} k.
 Arguments SOp {val} e recv others pl.
